@@ -227,6 +227,16 @@ func run(c *rig.Ctx) {
 		nops := 80 + r.Intn(240)
 		ok := true
 		for k := 0; k < nops && ok; k++ {
+			if r.Chance(1, 14) {
+				// two control stores of the same value to neighbouring addresses of one block
+				// (for an MBC2, bit 8 of the address makes them two different registers)
+				a := uint16(r.Intn(0x6000))
+				v := r.Pick8([]uint8{0x0a, 0x0a, 0x00, 0x01, r.U8()})
+				w.write(a, v)
+				w.write(a^0x100, v)
+				c.Count("same_value_store_pairs", 1)
+				continue
+			}
 			switch r.Intn(16) {
 			case 0: // enable
 				a := uint16(r.Intn(0x2000))
